@@ -21,7 +21,11 @@ structure Codec where
 
 /-- what the C09/C10 theorems assume of a codec (proved per codec in C08) -/
 structure Codec.Good (c : Codec) : Prop where
-  roundtrip : ∀ bs, c.dec (c.enc bs) = some bs
+  roundtrip : ∀ bs, SA.Bytes bs → c.dec (c.enc bs) = some bs
+
+/-- C08's `alphabet_safe`, as far as the wire needs it: output bytes, none of them '.' or '\\' -/
+structure Codec.Safe (c : Codec) : Prop where
+  safe : ∀ bs, ∀ x ∈ c.enc bs, x ≠ 46 ∧ x ≠ 92 ∧ x < 256
 
 def raw : Codec := ⟨id, some⟩
 
